@@ -194,8 +194,9 @@ def step (st : St) (line : String) : St × Option String :=
     match a.toList, parseHex? h with
     | [c], some bytes =>
       match parseArea? c with
-      | some area => if (st.io.area area).length = bytes.length then ({ st with io := st.io.setArea area bytes }, none)
-                     else (st, some "bad-op")
+      -- the harness overwrites the implementation's slice in place; a different length here means the
+      -- images already diverged at an earlier compared op (every image-changing op prints the images)
+      | some area => ({ st with io := st.io.setArea area bytes }, none)
       | none => (st, some "bad-op")
     | _, _ => (st, some "bad-op")
   | ["w", a, v] =>
